@@ -258,7 +258,10 @@ void run_te(vf::Ctx& c, char const* engine_name)
         w0.resize(channels, T(1));
         bool const user = t.flag();
         auto chk = user ? hep::make_multi_channel_chkpt<T, E>(w0, T(0), T(0.25), eng) : hep::make_multi_channel_chkpt<T, E>(minw, beta, eng);
-        chk.channels(channels);
+        // without user weights and before the first run the channel count is unknown: such a checkpoint has no first
+        // weights at all (the library's own 'empty stream construction' test writes exactly this)
+        bool const no_channels_yet = !user && nres == 0 && t.flag();
+        if (!no_channels_yet) { chk.channels(channels); } else { c.label("no-first-weights"); }
         for (std::size_t i = 0; i != nres; ++i)
         {
             eng.discard(t.range(0, 300));
